@@ -60,6 +60,10 @@ func init() {
 			Run: func(P *Program, R *Report) { sharedScratchRule(P, R) }},
 		Rule{ID: "C20.f", Explain: "provers and verifiers never write the public key: no store or in-place mutation through *PublicKey (or its bases) in any function reachable from the proving/verifying entry points.",
 			Run: func(P *Program, R *Report) { publicKeyReadOnlyRule(P, R) }},
+		Rule{ID: "C20.j", Explain: "the prepared non-revocation commitment is handed back to the shared cache only in a consistent state: NonrevPrepareCache puts a builder into the channel only after UpdateCommit (or building it) succeeded - another goroutine may take it out at once (the put-back obligation of C07.d, same rule).",
+			Run: func(P *Program, R *Report) {
+				sharedRule(P, R, "C07", "C07.d", "C20.j", func(c string) bool { return strings.Contains(c, "put-back") })
+			}},
 	)
 }
 
